@@ -15,6 +15,7 @@ CONSTANTS
   ACTS = {"share", "upd", "upd2"}
   MAXBASE = 1
   MAXLEN = 6
+  BASESET = "small"
   LOOPN = {5, 70}
   LOOPEVERY = {1, 3, 33}
   LOOPSTYLES = {"nl-op-first", "nl-save-first", "set-local", "set-global", "foldl", "vec", "hashv", "box", "thread"}
